@@ -16,6 +16,7 @@ from ..monitor import bump, oracle, violation
 from ..workloads import markers as MW
 
 PROP = "C02"
+ANCHORS = ['dep_logic.markers.single:MarkerExpression.__and__', 'dep_logic.markers.single:MarkerExpression.__or__', 'dep_logic.markers.single:EqualityMarkerUnion.__and__', 'dep_logic.markers.single:EqualityMarkerUnion.__or__', 'dep_logic.markers.single:InequalityMultiMarker.__and__', 'dep_logic.markers.single:InequalityMultiMarker.__or__', 'dep_logic.markers.single:_merge_single_markers', 'dep_logic.markers.single:_merge_python_version_single_markers', 'dep_logic.markers.single:_normalize_python_version_specifier', 'dep_logic.markers.multi:MultiMarker.of', 'dep_logic.markers.multi:MultiMarker.union_simplify', 'dep_logic.markers.union:MarkerUnion.of', 'dep_logic.markers.union:MarkerUnion.intersect_simplify', 'dep_logic.utils:cnf', 'dep_logic.utils:dnf', 'dep_logic.utils:union', 'dep_logic.utils:intersection']
 RULE = ("Strata: (main) seeded marker pairs over the well-defined atom classes, narrowed vocabularies (1-2 string "
         "variables, 2-4 literals) so that merges/absorptions/contradictions happen, <=7 (quick) / <=9 (thorough) atoms "
         "per pair, operands also EmptyMarker/AnyMarker, earlier results and re-parsed renderings reused as operands; "
